@@ -331,6 +331,9 @@ zif_open(const char *file)
 	unsigned char *map;
 	const unsigned char *hdr, *beef;
 	size_t real_ntr = 0U;
+	/* file size, offset of the header in use, size of its data block */
+	size_t fz, hoff = 0U, dsz;
+	unsigned char ver;
 
 	/* check for special time zones */
 	if ((cz = coord_zone(file)) > TZCZ_UNK) {
@@ -388,9 +391,11 @@ zif_open(const char *file)
 		return NULL;
 	} else if (fstat(fd, &st) < 0) {
 		goto cout;
-	} else if (st.st_size <= 20) {
+	} else if (st.st_size < (off_t)sizeof(struct zih_s)) {
+		/* not even a header */
 		goto cout;
 	}
+	fz = st.st_size;
 
 	map = mmap(NULL, st.st_size, PROT_READ, MAP_SHARED, fd, 0);
 	if (map == MAP_FAILED) {
@@ -402,24 +407,29 @@ zif_open(const char *file)
 	}
 	/* read hdr with undefined alignment */
 	hdr = map;
-	switch (hdr[offsetof(struct zih_s, tzh_version)]) {
+	switch ((ver = hdr[offsetof(struct zih_s, tzh_version)])) {
 		const unsigned char *hds;
 	case '2':
 		/*@fallthrough@*/
 	case '3':
-		hds = hdr;
 		tmp.nlp = RDU32(hdr + offsetof(struct zih_s, tzh_leapcnt));
 		tmp.ntr = RDU32(hdr + offsetof(struct zih_s, tzh_timecnt));
 		tmp.nty = RDU32(hdr + offsetof(struct zih_s, tzh_typecnt));
-		hds += sizeof(struct zih_s);
-		hds += tmp.ntr * 4U;
-		hds += tmp.ntr;
-		hds += tmp.nty * (4U + 1U + 1U);
-		hds += RDU32(hdr + offsetof(struct zih_s, tzh_charcnt));
-		hds += tmp.nlp * (4U + 4U);
-		hds += RDU32(hdr + offsetof(struct zih_s, tzh_ttisstdcnt));
-		hds += RDU32(hdr + offsetof(struct zih_s, tzh_ttisgmtcnt));
+		/* skip the version 1 block */
+		hoff += sizeof(struct zih_s);
+		hoff += tmp.ntr * 4U;
+		hoff += tmp.ntr;
+		hoff += tmp.nty * (4U + 1U + 1U);
+		hoff += RDU32(hdr + offsetof(struct zih_s, tzh_charcnt));
+		hoff += tmp.nlp * (4U + 4U);
+		hoff += RDU32(hdr + offsetof(struct zih_s, tzh_ttisstdcnt));
+		hoff += RDU32(hdr + offsetof(struct zih_s, tzh_ttisgmtcnt));
 
+		if (UNLIKELY(hoff + sizeof(struct zih_s) > fz)) {
+			/* the second header would be beyond the file */
+			goto unmp;
+		}
+		hds = hdr + hoff;
 		if (UNLIKELY(memcmp(hds, TZ_MAGIC, 4U))) {
 			goto unmp;
 		}
@@ -430,6 +440,19 @@ zif_open(const char *file)
 		tmp.nty = RDU32(hdr + offsetof(struct zih_s, tzh_typecnt));
 		break;
 	default:
+		goto unmp;
+	}
+	/* the transitions and types we're about to read must be in the file */
+	dsz = sizeof(struct zih_s) + tmp.ntr + tmp.nty * (4U + 1U + 1U);
+	if (ver) {
+		dsz += tmp.ntr * 8U;
+	} else {
+		dsz += tmp.ntr * 4U;
+	}
+	if (UNLIKELY(hoff + dsz > fz)) {
+		goto unmp;
+	} else if (UNLIKELY(!tmp.nty)) {
+		/* there must be a type for the time before the first transition */
 		goto unmp;
 	}
 	/* alloc space, don't read leaps just transitions and types */
@@ -451,7 +474,7 @@ zif_open(const char *file)
 	res->cache = (struct zrng_s){0};
 	/* copy data (and bring to host order) */
 	beef = hdr + sizeof(struct zih_s);
-	switch (hdr[offsetof(struct zih_s, tzh_version)]) {
+	switch (ver) {
 	case '2':
 		/*@fallthrough@*/
 	case '3':
@@ -476,6 +499,13 @@ zif_open(const char *file)
 			res->ofs[i] = RDI32(beef + 6U * i);
 		}
 		break;
+	}
+	/* a transition must not refer to a type that isn't there */
+	for (size_t i = 0U; i < tmp.ntr; i++) {
+		if (UNLIKELY(res->tys[i] >= tmp.nty)) {
+			free(res);
+			goto unmp;
+		}
 	}
 	/* clean up */
 	munmap(map, st.st_size);
